@@ -4,7 +4,7 @@
 id=$1; src=$2/SEEDED
 wt=/tmp/cs-$id-$$
 git -C /repo worktree add --detach $wt HEAD >/dev/null 2>&1 || exit 2
-trap "git -C /repo worktree remove --force $wt >/dev/null 2>&1" EXIT
+trap "rm -rf $wt-xdg; git -C /repo worktree remove --force $wt >/dev/null 2>&1" EXIT
 export GOFLAGS=-mod=mod GOPROXY=off
 demo=$(python3 -c "import json;print(json.load(open('$src/meta.json')).get('demo',''))")
 files=$(ls $src/*_test.go 2>/dev/null)
@@ -12,8 +12,8 @@ files=$(ls $src/*_test.go 2>/dev/null)
 for f in $(cd $2 && git status --short | grep '_test.go' | awk '{print $2}'); do mkdir -p $wt/$(dirname $f); cp $2/$f $wt/$f; done
 pkgs=$(cd $2 && git status --short | grep '_test.go' | awk '{print $2}' | xargs -n1 dirname | sort -u | sed 's|^|./|' | tr '\n' ' ')
 echo "demo packages: $pkgs"
-( cd $wt && unshare -n -- sh -c 'ip link set lo up; exec "$@"' sh go test -vet=off -count=1 -run 'Seeded|SeededDemo' $pkgs 2>&1 | grep -E "^(--- FAIL|FAIL|ok)" | tr '\n' ' '; echo " <= WITHOUT patch (expect ok)" )
+( cd $wt && env GOCACHE=$(go env GOCACHE) XDG_CACHE_HOME=$wt-xdg unshare -n -- sh -c 'ip link set lo up; exec "$@"' sh go test -vet=off -count=1 -run 'Seeded|SeededDemo' $pkgs 2>&1 | grep -E "^(--- FAIL|FAIL|ok)" | tr '\n' ' '; echo " <= WITHOUT patch (expect ok)" )
 git -C $wt apply $src/patch.diff || { echo PATCH-DOES-NOT-APPLY; exit 2; }
-( cd $wt && unshare -n -- sh -c 'ip link set lo up; exec "$@"' sh go test -vet=off -count=1 -run 'Seeded|SeededDemo' $pkgs 2>&1 | grep -E "^(--- FAIL|FAIL|ok)" | head -4 | tr '\n' ' '; echo " <= WITH patch (expect FAIL)" )
+( cd $wt && env GOCACHE=$(go env GOCACHE) XDG_CACHE_HOME=$wt-xdg unshare -n -- sh -c 'ip link set lo up; exec "$@"' sh go test -vet=off -count=1 -run 'Seeded|SeededDemo' $pkgs 2>&1 | grep -E "^(--- FAIL|FAIL|ok)" | head -4 | tr '\n' ' '; echo " <= WITH patch (expect FAIL)" )
 tp=$(git -C $wt diff --name-only | xargs -n1 dirname | sort -u | sed 's|^|./|' | tr '\n' ' ')
-( cd $wt && go build ./... && unshare -n -- sh -c 'ip link set lo up; exec "$@"' sh go test -vet=off -count=1 -skip 'Seeded' $tp ./internal/broker/ 2>&1 | grep -E "^(--- FAIL|FAIL|ok)" | grep -v -E "TestJoin|TestNewClient|TestStatsd" | tr '\n' ' '; echo " <= existing tests WITH patch" )
+( cd $wt && go build ./... && env GOCACHE=$(go env GOCACHE) XDG_CACHE_HOME=$wt-xdg unshare -n -- sh -c 'ip link set lo up; exec "$@"' sh go test -vet=off -count=1 -skip 'Seeded' $tp ./internal/broker/ 2>&1 | grep -E "^(--- FAIL|FAIL|ok)" | grep -v -E "TestJoin|TestNewClient|TestStatsd" | tr '\n' ' '; echo " <= existing tests WITH patch" )
